@@ -41,6 +41,26 @@ def faults(spec):
             pos = {"after": ci + 1, "end": len(chans), "front": 0}[where]
             s["channels"].insert(pos, d)
             yield ("a_dup_channel", where), s
+    # (d2) compensating length faults: one non-leading sample one bin too long in one channel and one bin too short in another
+    for ci, c in enumerate(chans):
+        for cj, c2 in enumerate(chans):
+            if ci == cj:
+                continue
+            for si, sm in enumerate(c["samples"]):
+                sj = next((j for j, x in enumerate(c2["samples"]) if x["name"] == sm["name"]), None)
+                if si == 0 or sj in (None, 0) or len(c2["samples"][sj]["data"]) < 2:
+                    continue
+                s = cp()
+                for (a, b, delta) in ((ci, si, 1), (cj, sj, -1)):
+                    t = s["channels"][a]["samples"][b]
+                    t["data"] = t["data"] + [1.0] if delta > 0 else t["data"][:-1]
+                    for mm in t["modifiers"]:
+                        if mm["type"] in ("shapesys", "staterror"):
+                            mm["data"] = mm["data"] + [1.0] if delta > 0 else mm["data"][:-1]
+                        if mm["type"] == "histosys":
+                            for k in ("lo_data", "hi_data"):
+                                mm["data"][k] = mm["data"][k] + [1.0] if delta > 0 else mm["data"][k][:-1]
+                yield ("d_sample_len", "compensating"), s
     for ci, c in enumerate(chans):
         nbc = len(c["samples"][0]["data"])
         for si, sm in enumerate(c["samples"]):
